@@ -3,6 +3,8 @@ from vlib import common as C
 from checks import fsmlib as F
 
 LEVEL = "proof"
+# C functions this check's models mirror (source-text fingerprints are recorded in the evidence, see translate/funchash.py)
+MODELLED_FUNCS = {'src/fs/iwfsmfile.c': ['_fsm_blk_allocate_lw', '_fsm_blk_allocate_aligned_lw', '_fsm_blk_deallocate_lw', '_fsm_find_matching_fblock_lw', '_fsm_put_fbk', '_fsm_del_fbk', '_fsm_reallocate', '_fsm_deallocate', '_fsm_allocate', '_fsm_resize_fsm_bitmap_lw', '_fsm_init_lw']}
 MANIFEST = dict(
     level="proof",
     text=("Lean 4 theorems over an executable model of iwfsmfile.c (bitmap, free-extent index ordered by (length, offset), "
